@@ -183,6 +183,22 @@ def task_expand(t):
         nh = judge_edit(state_hex, op, int(kv1['ret']), kv1['bytes'], canon1, out, hits, (start_hex, hist))
         if nh is not None:
             succ.append((op_text(op), nh))
+            # the same edit history applied "blind": nothing inspects the message before or between the edits (an inspected
+            # message has been converted to the native byte order and has a filled field cache); same result required
+            try:
+                rb = h.cmd('EDITB %s %s' % (start_hex, ' '.join(hist + [op_text(op)])))
+            except HarnessDied as e:
+                out.append(crash_violation(e, {'start': start_hex, 'ops': hist + [op_text(op)], 'blind': True}))
+                continue
+            pb = rb.split(';;')[1:]
+            if rb.startswith('OK') and pb:
+                kvb = parse_kv(pb[-1].split(' canon=')[0])
+                hits['blind'] = hits.get('blind', 0) + 1
+                db_ = R.decode_lenient(bytes.fromhex(kvb.get('bytes', '')))
+                di_ = R.decode_lenient(bytes.fromhex(nh))
+                if db_ is None or di_ is None or describe(db_) != describe(di_):
+                    out.append(Violation('blind-edit-differs', op[0], 'the edit history %r gives a different (or malformed) message when the message is not inspected before/between the edits (byte order aside)\n inspected: %s\n blind    : %s' %
+                                         (hist + [op_text(op)], nh, kvb.get('bytes')), {'start': start_hex, 'ops': hist + [op_text(op)], 'blind': True}))
     byfp = {}
     for v in out:
         byfp.setdefault(v.fingerprint, []).append(v)
@@ -254,6 +270,19 @@ def replay(case):
     """Re-run the whole recorded edit sequence from the start message, judging every step."""
     out, hits = [], {}
     ops = case['ops']
+    if case.get('blind'):
+        with Harness('vbox') as h:
+            try:
+                r1 = h.cmd('EDIT %s %s' % (case['start'], ' '.join(ops)))
+                r2 = h.cmd('EDITB %s %s' % (case['start'], ' '.join(ops)))
+            except HarnessDied as e:
+                return [crash_violation(e, case)]
+        b1 = parse_kv(r1.split(';;')[-1].split(' canon=')[0])['bytes']
+        b2 = parse_kv(r2.split(';;')[-1].split(' canon=')[0])['bytes']
+        d1, d2 = R.decode_lenient(bytes.fromhex(b1)), R.decode_lenient(bytes.fromhex(b2))
+        if d1 is None or d2 is None or describe(d1) != describe(d2):
+            return [Violation('blind-edit-differs', parse_op(ops[-1])[0], 'inspected %s blind %s' % (b1, b2), case)]
+        return []
     with Harness('vbox') as h:
         try:
             r = h.cmd('EDIT %s %s' % (case['start'], ' '.join(ops)))
